@@ -220,6 +220,7 @@ struct Stats {
     settings_reapplied: u64,
     off_on_toggles: u64,
     snapshot_roundtrips: u64,
+    szx_time_jumps: u64,
     fast_forward_preludes: u64,
     drains: u64,
     undrained_runs: u64,
@@ -340,6 +341,7 @@ fn tracking_case(ctx: &Ctx, rng: &mut Rng, id: u64, st: &mut Stats) {
     let host_reapplies = rng.chance(1, 3);
     let host_toggles = rng.chance(1, 4);
     let host_snapshots = rng.chance(1, 5);
+    let host_szx = !host_snapshots && !ay_loud && rng.chance(1, 5);
     while frames_done < nframes && steps < max_steps {
         let pc = m.cpu().regs.get_pc();
         let is_out = m.peek(pc) == 0xD3 && m.peek(pc.wrapping_add(1)) == 0xFE;
@@ -397,6 +399,24 @@ fn tracking_case(ctx: &Ctx, rng: &mut Rng, id: u64, st: &mut Stats) {
             }
             pending.push((frame - 1, s));
             frames_done += 1;
+            // between frames the host may load an SZX snapshot of this very state whose frame position
+            // (dwCyclesStart) lies further on in the frame: emulated time jumps there, and the samples
+            // after the jump still sit at their frame times
+            if host_szx && frames_done == 1 {
+                let c = crate::spec_snap::capture(&mut m);
+                let x = 2000 + rng.below(frame_len as u64 - 6000) as usize;
+                let lvl = evs.last().map(|e| e.lvl).unwrap_or(0);
+                let a = crate::spec_snap::Abs { is128: cfg.is128, r: c.r, ei_last: false, border: c.border, latch: c.latch & 0x1F, pages: c.pages, ay: None, mouse: None, keyb: None, cycles: x as u32, fe_hi: lvl << 3 };
+                let bytes = crate::spec_snap::write_szx(&a, &crate::spec_snap::SzxOpts::plain(), rng);
+                if !matches!(crate::spec_snap::load_szx(&mut m, &bytes), Ok(Ok(()))) {
+                    ctx.inconclusive("C19: reloading the machine's own state from an SZX failed (C14's business)");
+                    return;
+                }
+                if m.clock() > 1000 {
+                    st.szx_time_jumps += 1;
+                }
+                prev_clock = m.clock();
+            }
             // between frames a host may re-apply its sound settings (same values): that changes
             // nothing the program has set up – in particular not the level the speaker is held at
             if host_reapplies && frames_done % 2 == 1 {
@@ -607,6 +627,7 @@ pub fn run(ctx: &Ctx) -> Evidence {
         tot.settings_reapplied += r.settings_reapplied;
         tot.off_on_toggles += r.off_on_toggles;
         tot.snapshot_roundtrips += r.snapshot_roundtrips;
+        tot.szx_time_jumps += r.szx_time_jumps;
         tot.fast_forward_preludes += r.fast_forward_preludes;
         tot.drains += r.drains;
         tot.undrained_runs += r.undrained_runs;
@@ -629,6 +650,7 @@ pub fn run(ctx: &Ctx) -> Evidence {
     ev.add_num("host_reapplied_sound_settings_between_frames", tot.settings_reapplied);
     ev.add_num("sound_or_speed_switched_off_and_on_while_stopped", tot.off_on_toggles);
     ev.add_num("own_snapshot_saved_and_reloaded_before_a_drain", tot.snapshot_roundtrips);
+    ev.add_num("szx_loads_moving_the_frame_position_forward", tot.szx_time_jumps);
     ev.add_num("cases_after_a_fast_forward_pass_ended_by_a_breakpoint", tot.fast_forward_preludes);
     ev.add_num("full_drains", tot.drains);
     ev.add_num("full_drains_after_undrained_frames", tot.undrained_runs);
